@@ -1,5 +1,5 @@
 """What MANIFEST.json claims.  One entry per property with a working check."""
-HOOK_COMMITS = []
+HOOK_COMMITS = ["4df701df"]
 NOTES = ("All checks: bin/check <id> --tier quick|thorough; exit 0 held / 1 VIOLATION / 2 tool error. Expected values are "
          "always computed by TLC from the TLA+ specification in /verif/spec; the Rust harness only executes and compares. "
          "Known findings: /verif/findings/known_findings.jsonl.")
@@ -28,4 +28,11 @@ CHECKS = {
     note=("Trusted: TLC; the edit language (push/pop/clear/set/insert + exit) as a stand-in for arbitrary closures; closures that "
           "panic are not modelled. The invariant is inductive in the model; bounds NC<=4 coordinates, rings <= 4(+1), <= 3 holes."),
     technique="TLA+ state machine: TLC invariants + per-transition replay + chained trace validation", design_ref="DESIGN.md 5 C18"),
+ "C17": dict(
+    text=("Trace_Prepared.tla: session of prepared handles (geometry + cache fingerprint taken at Prepare); Relate(a,b) must return "
+          "the DE-9IM of the plain operands (computed by TLC from the point-set definition) and leave every cache fingerprint "
+          "unchanged. Seeded random histories recorded from the real API (hook H4) are validated as one chain; in addition the "
+          "TLC-enumerated pairs of C01 are replayed through 7 prepared forms each."),
+    note=_TB + " Hook H4 exposes the cached graph (nodes, edges, labels, edge intersections) as a fingerprint.",
+    technique="TLA+ session machine; chained trace validation of recorded histories + spec->impl replay", design_ref="DESIGN.md 5 C17"),
 }
